@@ -25,6 +25,10 @@ var solvers = []solverSpec{
 	{name: "z3-new/ematch", bin: "z3-new", args: func(f string, s int) []string {
 		return []string{fmt.Sprintf("-T:%d", s), "smt.auto_config=false", "smt.mbqi=false", f}
 	}},
+	{name: "z3-new/ematch-shallow", bin: "z3-new", args: func(f string, s int) []string {
+		// low eager threshold: instances of deep generations are delayed, which tames matching loops
+		return []string{fmt.Sprintf("-T:%d", s), "smt.auto_config=false", "smt.mbqi=false", "smt.qi.eager_threshold=2", f}
+	}},
 	{name: "cvc5", bin: "cvc5", args: func(f string, s int) []string {
 		return []string{fmt.Sprintf("--tlimit=%d", s*1000), "--full-saturate-quant", f}
 	}},
@@ -157,8 +161,10 @@ func solveOne(file string, cfg solveCfg, cover bool) (res, solver string, secs f
 	}
 	if !cfg.confirm && !cover {
 		// stage 1b: pure E-matching configuration, cheap and often decisive for quantified goals
-		if r2, text2, _ := runSolver(context.Background(), solvers[2], file, cfg.fastSecs+2); r2 == "unsat" || r2 == "sat" {
-			return r2, solvers[2].name, time.Since(t0).Seconds(), text2
+		for _, si := range []int{3, 2} {
+			if r2, text2, _ := runSolver(context.Background(), solvers[si], file, cfg.fastSecs+2); r2 == "unsat" || r2 == "sat" {
+				return r2, solvers[si].name, time.Since(t0).Seconds(), text2
+			}
 		}
 	}
 	firstRes, firstSolver := r, solvers[0].name
@@ -201,6 +207,13 @@ func solveOne(file string, cfg solveCfg, cover bool) (res, solver string, secs f
 			best.text = a.text
 		}
 	}
+	if best.r != "unsat" && best.r != "sat" && !cover {
+		// Dropping hypotheses is sound: retry with the forall-exists assumptions (which tend to
+		// cause matching loops) removed, then with exactly one of them kept.
+		if r, nm, text := solveReduced(file, cfg); r == "unsat" {
+			return r, nm, time.Since(t0).Seconds(), text
+		}
+	}
 	name := best.name
 	if cfg.confirm && start == 1 && (best.r == "unsat" || best.r == "sat") {
 		name = firstSolver + "+" + best.name
@@ -231,4 +244,56 @@ func (x *Exec) modelFor(o *Obligation, cfg solveCfg) string {
 		}
 	}
 	return ""
+}
+
+// solveReduced retries a query with fewer hypotheses (sound for unsat answers).
+func solveReduced(file string, cfg solveCfg) (string, string, string) {
+	b, err := os.ReadFile(file)
+	if err != nil {
+		return "error", "", ""
+	}
+	lines := strings.Split(string(b), "\n")
+	var toxic []int
+	for i, l := range lines {
+		if strings.HasPrefix(l, "(assert (forall") && strings.Contains(l, "(exists ") {
+			toxic = append(toxic, i)
+		}
+	}
+	if len(toxic) == 0 {
+		return "unknown", "", ""
+	}
+	try := func(keep int, tag string) (string, string) {
+		var out []string
+		for i, l := range lines {
+			drop := false
+			for _, t := range toxic {
+				if i == t && t != keep {
+					drop = true
+				}
+			}
+			if !drop {
+				out = append(out, l)
+			}
+		}
+		rf := strings.TrimSuffix(file, ".smt2") + "_red" + tag + ".smt2"
+		os.WriteFile(rf, []byte(strings.Join(out, "\n")), 0o644)
+		defer os.Remove(rf)
+		for _, si := range []int{3, 0} {
+			if r, text, _ := runSolver(context.Background(), solvers[si], rf, 6); r == "unsat" {
+				return r, text
+			}
+		}
+		return "unknown", ""
+	}
+	if r, text := try(-1, "0"); r == "unsat" {
+		return r, "z3-new (reduced: forall-exists hypotheses dropped)", text
+	}
+	if len(toxic) <= 8 {
+		for k, t := range toxic {
+			if r, text := try(t, fmt.Sprint(k+1)); r == "unsat" {
+				return r, "z3-new (reduced: one forall-exists hypothesis kept)", text
+			}
+		}
+	}
+	return "unknown", "", ""
 }
